@@ -57,6 +57,7 @@ func newEventDebouncer(name string, eventHandler func([]frame), logger StdLogger
 }
 
 func (e *eventDebouncer) stop() {
+	verifPoint("ed.stop")
 	e.quit <- struct{}{} // sync with flusher
 	close(e.quit)
 }
@@ -65,6 +66,7 @@ func (e *eventDebouncer) flusher() {
 	for {
 		select {
 		case <-e.timer.C:
+			verifPoint("ed.woke")
 			e.mu.Lock()
 			e.flush()
 			e.mu.Unlock()
